@@ -16,7 +16,7 @@ Step == obs.ev = "step"
 StepDone(d) == Step /\ obs.e = "Step" /\ obs.stepDo = d
 \* C01_ServedOnce / right service: one service call per connection, by the service of the listener it connected to
 T_C01_ServedOnceRightService == Step => (~obs.dupServed /\ ~obs.wrongService)
-T_C01_AllServed == (StepDone("await_started") \/ StepDone("stress")) => obs.stepOk
+T_C01_AllServed == (StepDone("await_started") \/ StepDone("stress") \/ StepDone("await_called") \/ StepDone("connect_rst")) => obs.stepOk
 \* C02_Bound: per worker thread, connections in progress never exceed max_concurrent_connections
 \* (stressMaxLive: the largest number of service futures alive at once on one worker thread, counted inside the services
 \* during the stress phases)
